@@ -229,6 +229,73 @@ def hms_table(prog, ms):
     return fn, outs
 
 
+def region_by_intervals(cl):
+    """The region selected by a set of bounds on d and on R = round(d), using R >= c => d >=
+    c - 1/2 and d < c => R <= c: the same four regions reached by tests in another order (hours
+    first, redundant bounds left out)."""
+    from fractions import Fraction as Fr
+    d_lo = max([c for k, n, c in cl if k == 'lo' and n == 'd'], default=None)
+    d_hi = min([c for k, n, c in cl if k == 'hi' and n == 'd'], default=None)
+    r_lo = max([c for k, n, c in cl if k == 'lo' and n == 'R'], default=None)
+    r_hi = min([c for k, n, c in cl if k == 'hi' and n == 'R'], default=None)
+    if d_hi is not None:
+        return ['sub10'] if (d_hi == 10 and d_lo is None and r_lo is None and r_hi is None) else []
+    at_least_10 = (d_lo == 10) or (d_lo is None and r_lo is not None and r_lo - Fr(1, 2) >= 10)
+    if not at_least_10 or (d_lo is not None and d_lo != 10):
+        return []
+    if r_hi == 60 and (r_lo is None or r_lo <= 10):
+        return ['ss']
+    if r_lo == 60 and r_hi == 3600:
+        return ['mss']
+    if r_lo == 3600 and r_hi is None:
+        return ['hmmss']
+    return []
+
+
+def integer_threshold(e, op, R):
+    """Tests on the rounded duration R (an integer >= 0) or on a whole-unit field FLOOR(R/k),
+    rewritten as R < bound / R >= bound: FLOOR(R/k) >= c <=> R >= c*k, FLOOR(R/k) != 0 <=> R >= k,
+    R > c <=> R >= c + 1 ...  Anything else is returned unchanged."""
+    inv = {'<': '>', '>': '<', '<=': '>=', '>=': '<=', '==': '==', '!=': '!='}
+    floors = [a for a in e.atoms() if a[0] == 'f' and a[1] == 'FLOOR']
+    if len(floors) == 1 and len(e.atoms()) == 1:
+        F = Sym(poly.Poly.atom(floors[0]))
+        k = R / floors[0][2][0]
+        s_ = (e - e.subs_atoms({floors[0]: Sym.const(0)})) / F
+        c0 = e.subs_atoms({floors[0]: Sym.const(0)})
+        if k.is_const() and k.const_value() > 0 and s_.is_const() and c0.is_const() and \
+                s_.const_value() in (1, -1):
+            kk, c = k.const_value(), -c0.const_value() / s_.const_value()
+            if s_.const_value() < 0:
+                op = inv[op]
+            if c.denominator == 1:
+                # F op c
+                if op == '>=':
+                    return R - c * kk, '>='
+                if op == '<':
+                    return R - c * kk, '<'
+                if op == '>':
+                    return R - (c + 1) * kk, '>='
+                if op == '<=':
+                    return R - (c + 1) * kk, '<'
+                if op == '!=' and c == 0:
+                    return R - kk, '>='        # R >= 0: a non-zero field means at least one unit
+                if op == '==' and c == 0:
+                    return R - kk, '<'
+    for sgn in (1, -1):
+        d_ = e * sgn - R
+        if d_.is_const() and d_.const_value().denominator == 1:
+            o2 = op if sgn == 1 else inv[op]
+            c = -d_.const_value()              # R - c  o2  0
+            if o2 == '>':
+                return R - (c + 1), '>='
+            if o2 == '<=':
+                return R - (c + 1), '<'
+            if sgn == -1 and o2 in ('<', '>='):
+                return R - c, o2
+    return e, op
+
+
 def cond_form(c, truth):
     """Normalise a path assumption to (expr, relation) with relation in '<', '>='."""
     if isinstance(c, NotC):
@@ -349,6 +416,19 @@ def check_hms(ck, prog):
             the wrong quantity."""
             lo, hi = {}, {}
             for e, op in conds:
+                # a whole-unit field of a unit the path has already excluded is zero:
+                # R < b established, k >= b  =>  FLOOR(R/k) = 0
+                r_hi = min([c for (n_, c) in hi if n_ == 'R'], default=None)
+                if r_hi is not None:
+                    zero = {}
+                    for a_ in e.atoms():
+                        if a_[0] == 'f' and a_[1] == 'FLOOR':
+                            k_ = R / a_[2][0]
+                            if k_.is_const() and k_.const_value() >= r_hi:
+                                zero[a_] = Sym.const(0)
+                    if zero:
+                        e = e.subs_atoms(zero)
+                e, op = integer_threshold(e, op, R)
                 # e is (X - c); identify X in {d, R}
                 for name, X in (('d', d), ('R', R)):
                     diff = X - e
@@ -391,6 +471,8 @@ def check_hms(ck, prog):
                 continue
             region = [k for k, v in expect.items() if v == cl]
             if not region:
+                region = region_by_intervals(cl)
+            if not region:
                 ck.violation('C20-D4-hms', 'format_hms::regions[%s]' % mode, fn.loc(),
                              'branch conditions %s do not select one of the regions d<10 | R<60 | '
                              'R<3600 | R>=3600 (R = round(duration)); thresholds 60 and 3600 must '
@@ -419,8 +501,21 @@ def check_hms(ck, prog):
             if not ok:
                 msg = 'expected %d numeric fields, found %d' % (len(slots), len(got))
             else:
+                cap = {'ss': 60, 'mss': 3600}.get(region)
+
+                def in_region(v):
+                    # whole-unit fields of units this region excludes are zero (R < cap)
+                    if cap is None or not isinstance(v, Sym):
+                        return v
+                    zero = {}
+                    for a_ in v.atoms():
+                        if a_[0] == 'f' and a_[1] == 'FLOOR':
+                            k_ = R / a_[2][0]
+                            if k_.is_const() and k_.const_value() >= cap:
+                                zero[a_] = Sym.const(0)
+                    return v.subs_atoms(zero) if zero else v
                 for k, (g, (val, specs)) in enumerate(zip(got, slots)):
-                    if not (isinstance(g.value, Sym) and g.value == val):
+                    if not (isinstance(g.value, Sym) and in_region(g.value) == in_region(val)):
                         ok, msg = False, 'field %d is %r, expected %r' % (k + 1, g.value, val)
                         break
                     if g.spec not in specs:
